@@ -287,8 +287,8 @@ POOL = [
     ("nested_dict_with_L", lambda: {"k": L([D(a=MySeq())])}),
     # several hundred DISTINCT new types in one value (bounded memo tables must not forget what they
     # cannot rebuild)
-    ("burst_list_types", lambda: [type("B%d" % i, (list,), {})([i]) for i in range(300)]),
-    ("burst_scalar_types", lambda: {"k%d" % i: type("N%d" % i, (int,), {})(i) for i in range(300)}),
+    ("burst_list_types", lambda: [type("B%d" % i, (list,), {})([i]) for i in range(160)]),
+    ("burst_scalar_types", lambda: {"k%d" % i: type("N%d" % i, (int,), {})(i) for i in range(160)}),
 ]
 NAMES = [n for n, _ in POOL]
 N = len(POOL)
